@@ -12,7 +12,12 @@ for f in kf['fixed']:
     pid,h=f['property'],f['commit']
     if pid not in claimed:
         print(pid,h,'SKIP (not claimed yet)');continue
-    subprocess.run(f"git -C {wt} checkout -q -- . && git -C {wt} show {h} | git -C {wt} apply -R",shell=True,check=True)
+    r=subprocess.run(f"git -C {wt} checkout -q -- . && git -C {wt} show {h} | git -C {wt} apply -R",shell=True,capture_output=True)
+    if r.returncode!=0:
+        r=subprocess.run(f"git -C {wt} checkout -q -- . && git -C {wt} show {h} | git -C {wt} apply -R --3way",shell=True,capture_output=True)
+    if r.returncode!=0 or subprocess.run(f"git -C {wt} diff --name-only --diff-filter=U",shell=True,capture_output=True,text=True).stdout.strip():
+        subprocess.run(f"git -C {wt} checkout -q -f HEAD -- . ; git -C {wt} reset -q --hard",shell=True)
+        print(pid,h,'cannot be reversed in isolation any more (a later fix rewrites the same lines)');continue
     p=subprocess.run(f"GCMPY_REPO={wt} ./check {pid} 2>/dev/null | grep -E '^(OK|VIOLATION)' | head -n 1",shell=True,capture_output=True,text=True)
     print(pid,h,p.stdout.strip())
 subprocess.run(f"git -C {wt} checkout -q -- .",shell=True)
